@@ -1,4 +1,4 @@
-STREAMS = ["c08"]
+STREAMS = ["c08", "c08gw"]
 RULE = ("packet sequences (setup exchange + DATA packets with payload sizes around 0, 1, 4086-4088, 4095-4097, 8183-8185, ... + "
         "keep-alives + close) delivered (0) one packet per read, (1) with one cut, (2) two cuts inside a packet, (3) 2..n packets "
         "coalesced, (4) random multi-cut independent of packet boundaries, (5) 4096-byte pieces, (6) every packet cut once; each "
@@ -11,6 +11,8 @@ ASSUMPTIONS = ["known findings: coalesced packets, packets over >= 3 reads and f
 
 
 def nontrivial(c):
+    if c.kind == "tunnel":
+        return True
     return c.fields[3] != c.fields[4]
 
 
